@@ -9,13 +9,42 @@ def _lib():
     return L
 
 
+class CallTimeout(BaseException):
+    pass
+
+
+def _on_alarm(signum, frame):
+    raise CallTimeout()
+
+
+CALL_TIMEOUT_S = 8.0
+MAX_TIMEOUTS = 3          # after this many calls that did not return, the rest of the run is skipped (`T:skipped`)
+_timeouts = [0]
+
+
 def call(thunk):
+    """run one call of the real code; a call that does not return within CALL_TIMEOUT_S answers `T:timeout`
+    (a changed tree can loop forever: that must become a reported difference, not a hung check)"""
+    import signal, threading
+    if _timeouts[0] >= MAX_TIMEOUTS:
+        return "T:skipped"
+    use_alarm = threading.current_thread() is threading.main_thread()
+    if use_alarm:
+        old = signal.signal(signal.SIGALRM, _on_alarm)
+        signal.setitimer(signal.ITIMER_REAL, CALL_TIMEOUT_S)
     try:
         return enc_result(thunk())
+    except CallTimeout:
+        _timeouts[0] += 1
+        return "T:timeout"
     except RecursionError:
         raise
     except Exception as e:  # noqa
         return enc_exc(e)
+    finally:
+        if use_alarm:
+            signal.setitimer(signal.ITIMER_REAL, 0)
+            signal.signal(signal.SIGALRM, old)
 
 
 class CoreOps:
